@@ -287,6 +287,7 @@ def encEnd : Prov.End → String
   | .eof => "eof"
   | .reset => "reset"
   | .timeout => "timeout"
+  | .refused => "refused"
 
 def encAct : Prov.Act → String
   | .attempt true => "A:o"
@@ -336,6 +337,7 @@ def decScript (kind : String) (s : String) : Option (List Prov.Outcome) :=
       pure (acc ++ o)) []
   else if kind == "tcpc" then toks.foldlM (fun acc t => do let o ← decTcpTok t; pure (acc ++ o)) []
   else if kind == "udpc" then s.toNat?.map (fun k => List.replicate k (.ok 0 .timeout))
+  else if kind == "udpr" then s.toNat?.map (fun k => List.replicate k (.ok 0 .refused))
   else none
 
 /-- "p<k><e>" -/
